@@ -1,4 +1,5 @@
 import Blackbird.Props.C03
+import Blackbird.Props.C03Parse
 #print axioms Blackbird.C03_add_meaning
 #print axioms Blackbird.C03_sub_meaning
 #print axioms Blackbird.C03_mul_meaning
@@ -9,3 +10,11 @@ import Blackbird.Props.C03
 #print axioms Blackbird.C03_complex_meaning
 #print axioms Blackbird.C03_int_literal
 #print axioms Blackbird.C03_complex_literal_split
+#print axioms Blackbird.C03_parse_print
+#print axioms Blackbird.C03_parse_print_eof
+#print axioms Blackbird.C03_printing_injective
+#print axioms Blackbird.C03_sign_binds_tighter_than_power
+#print axioms Blackbird.C03_power_right_assoc
+#print axioms Blackbird.C03_minus_divide_left_assoc
+#print axioms Blackbird.C03_levels
+#print axioms Blackbird.C03_signed_exponent
